@@ -198,8 +198,11 @@ func (np *NetworkPolicy) ruleConnsContain(rulePorts []netv1.NetworkPolicyPort, p
 		return false, err
 	}
 	for i := range rulePorts {
-		if rulePorts[i].Port == nil { // If this field is not provided, this matches all port names and numbers.
-			return true, nil
+		if rulePorts[i].Port == nil { // If this field is not provided, this matches all port names and numbers (of the rule's protocol).
+			if strings.EqualFold(getProtocolStr(rulePorts[i].Protocol), protocol) {
+				return true, nil
+			}
+			continue
 		}
 		startPort, endPort, _, err := np.getPortsRange(rulePorts[i], dst)
 		if err != nil {
